@@ -15,7 +15,7 @@ RULE = ("stream 7: every sequence of <=K pairwise non-overlapping kernels (touch
         "is missing (dangling correlation), or the kernel carries no correlation; launch API name in {cudaLaunchKernel, "
         "cudaLaunchCooperativeKernel, cudaMemcpy, cudaGraphLaunch}; a sync record on the stream must "
         "be ignored; stream 9 empty or a fixed 2-kernel pattern; event 0 (the leading host op) early or late; "
-        "x thresholds {-1,0,1,2,30} x stream subsets x ranks {[0],[0,1],[1,0]} (the second rank owns a stream the first lacks) x file order {generated, reversed} x N1 "
+        "x thresholds {-1,0,1,2,30} x stream subsets x ranks {[0],[0,1],[1,0]} (the second rank owns a stream the first lacks) x file order {generated, reversed}; session slice (the same object ran a critical-path analysis of one launch window | decode_symbol_ids | the other summary getters before) x N1 "
         "tie orders. non-trivial = at least two distinct categories have positive idle time")
 ASSUMPTIONS = [
     "well-formed trace, kernels of one stream do not overlap (consecutive kernels satisfy end <= next start)",
@@ -65,6 +65,12 @@ def worlds(tier: str, stats: Dict[str, Any]) -> Iterator[Any]:
                         for s9 in ((False, True) if k <= 2 else (False,)):
                             yield dict(T=T, kernels=[list(x) for x in ks], launch=[list(c) for c in choice],
                                        root=root, s9=s9)
+                    if k == 2 and all(c[0] == "L" for c in choice):
+                        # session slice: the same object was used for other analyses before
+                        for pk in ("cp", "decode", "getters"):
+                            stats["transitions"] += 1
+                            yield dict(T=T, kernels=[list(x) for x in ks], launch=[list(c) for c in choice], root=0, s9=False,
+                                       prior=pk)
                     if k == 2 and any(c[0] == "L" for c in choice[1:]):
                         # the launch call is whatever host call is linked to the kernel, not only the common launch APIs
                         for lname in ("cudaLaunchCooperativeKernel", "cudaMemcpy", "cudaGraphLaunch"):
@@ -139,6 +145,8 @@ def check(world) -> Dict[str, Any]:
         else:
             ranks = {0: build(dict(world, s9=False), rev), 1: evs}
         ta, _ = htaenv.load_world(ranks)
+        if world.get("prior"):
+            htaenv.prior_session(ta, world["prior"])
         tag0 = "file-reversed" if rev else "file-order"
         for delay in (DELAYS if not rev else [1]):
             exp = {r: expected(e, delay) for r, e in ranks.items()}
